@@ -169,6 +169,9 @@ func (e *Exec) atCallAsserts(s *State, f *Frame, full, name string, args []Value
 		if ac.Expr.Expr == nil {
 			continue
 		}
+		if ac.Site > 0 && ac.SitePos != pos {
+			continue
+		}
 		if !(ac.Callee == full || ac.Callee == name || strings.HasSuffix(full, "."+ac.Callee) || strings.HasSuffix(full, ")."+ac.Callee)) {
 			continue
 		}
